@@ -44,7 +44,24 @@ pub fn long_text(r: &mut Rng) -> String {
 /// one generated export as JSON text (for C15's no-panic sweep of the converter)
 pub fn gen_export(r: &mut Rng) -> String { let rows = gen_rows(r); to_json(&rows, r) }
 
+/// every third export spells two of its symbols in mixed case, the same way on every row (share classes
+/// such as BRKb): a symbol is a key as written, on every kind of row alike
 fn gen_rows(r: &mut Rng) -> Vec<GRow> {
+    let mut rows = gen_rows_upper(r);
+    if rows.len() % 3 == 0 {
+        let re = |s: &mut String| { if s == "BRKB" { *s = "BRKb".into(); } else if s == "XYZ" { *s = "xyz".into(); } };
+        for row in rows.iter_mut() {
+            match row {
+                GRow::Buy { sym, .. } | GRow::Sell { sym, .. } | GRow::Cancel { sym, .. } | GRow::Dividend { sym, .. } | GRow::Split { sym, .. } | GRow::Unknown { sym, .. } => re(sym),
+                GRow::Nra { sym: Some(sym), .. } => re(sym),
+                _ => {}
+            }
+        }
+    }
+    rows
+}
+
+fn gen_rows_upper(r: &mut Rng) -> Vec<GRow> {
     let n = 2 + r.below(12) as usize;
     let base = NaiveDate::from_ymd_opt(2020 + r.below(5) as i32, 1 + r.below(12) as u32, 1 + r.below(25) as u32).expect("d");
     let syms = ["ACME", "XYZ", "BRKB", "A1"];
@@ -136,7 +153,7 @@ fn items_of(content: &str) -> Result<Vec<String>, String> {
 fn same_item(a: &str, b: &str) -> bool {
     let x: Vec<&str> = a.split(':').collect();
     let y: Vec<&str> = b.split(':').collect();
-    x.len() == y.len() && x.iter().zip(&y).all(|(p, q)| if p.starts_with('#') { Q::parse(p).zip(Q::parse(q)).map(|(u, v)| u.eq(&v)).unwrap_or(false) } else { p == q })
+    x.len() == y.len() && x.iter().zip(&y).all(|(p, q)| if p.starts_with('#') { Q::parse(p).zip(Q::parse(q)).map(|(u, v)| u.eq(&v)).unwrap_or(false) } else { p.eq_ignore_ascii_case(q) }) // the converter's side has been read back by the DSL parser, which upper-cases tickers
 }
 
 fn convert(json_text: &str) -> Result<cgt_converter::ConvertOutput, String> {
@@ -184,7 +201,7 @@ pub fn run(ctx: &mut Ctx) {
             for (d, sym) in keys {
                 let want_div = Q::sum(rows.iter().filter_map(|x| match x { GRow::Dividend { d: dd, sym: ss, amt: Some(a), .. } if *dd == d && *ss == sym => Some(Q::from_dec(a.abs())), _ => None }).collect::<Vec<_>>().iter());
                 let want_tax = Q::sum(rows.iter().filter_map(|x| match x { GRow::Nra { d: dd, sym: Some(ss), amt: Some(a), .. } if *dd == d && *ss == sym => Some(Q::from_dec(a.abs())), _ => None }).collect::<Vec<_>>().iter());
-                let pre = format!("D:{}:{}:", ord(d), sym);
+                let pre = format!("D:{}:{}:", ord(d), sym.to_uppercase()); // the DSL reads tickers without regard to case
                 let got_div = Q::sum(items.iter().filter(|x| x.starts_with(&pre)).filter_map(|x| Q::parse(x.split(':').nth(3)?)).collect::<Vec<_>>().iter());
                 let got_tax = Q::sum(items.iter().filter(|x| x.starts_with(&pre)).filter_map(|x| Q::parse(x.split(':').nth(4)?)).collect::<Vec<_>>().iter());
                 if !got_div.eq(&want_div) || !got_tax.eq(&want_tax) {
@@ -204,7 +221,7 @@ pub fn run(ctx: &mut Ctx) {
                 let nc = rows.iter().filter(|x| matches!(x, GRow::Cancel { d: dd, sym: ss, q: qq, p: pp } if *dd == d && *ss == sym && *qq == q && *pp == p)).count();
                 if nc > 0 { ctx.ev.count("cancel-keys"); if nc >= 2 { ctx.ev.count("cancel-keys-with-2+-cancels"); } }
                 unmatched += nc.saturating_sub(ns);
-                let pre = format!("S:{}:{}:", ord(d), sym);
+                let pre = format!("S:{}:{}:", ord(d), sym.to_uppercase());
                 let got = items.iter().filter(|x| x.starts_with(&pre)).filter(|x| { let f: Vec<&str> = x.split(':').collect(); f.get(3).and_then(|a| Q::parse(a)).map(|a| a.eq(&Q::from_dec(q))).unwrap_or(false) && f.get(4).and_then(|a| Q::parse(a)).map(|a| a.eq(&Q::from_dec(p))).unwrap_or(false) }).count();
                 if got != ns.saturating_sub(nc) {
                     ctx.ev.violation("oracle", format!("{sym} on {d}, {q} @ {p}: {ns} Sell row(s) and {nc} Cancel Sell row(s) leave {got} SELL line(s); each cancel must remove exactly one, leaving {}", ns.saturating_sub(nc)), case.clone());
